@@ -376,6 +376,29 @@ func (cr *crashRun) judge(img *sim.Disk, p int, torn bool, cont []BlkSpec, st *S
 			m.Secs = append(m.Secs, b)
 		}
 	}
+	// a second crash right after the continuation puts (all of them acknowledged, nothing torn):
+	// resuming once more must still hold every acknowledged block
+	if len(contBlks) > 0 {
+		env2 := NewEnv()
+		env2.SetDisk(img.Clone())
+		var st2 Store
+		var err2 error
+		if pv := safeCall(func() { st2, err2 = OpenStore(env2, cr.cfg) }); pv != nil {
+			return viol("crash/reopen-panic/second:"+loc, "second reopen (after the continuation puts) panicked: %v", pv)
+		}
+		sim.CurrentFS = env.FS
+		if err2 == nil {
+			st.Probe("crash:second-resume-ok")
+			for _, b := range must {
+				has, herr := st2.Has(b.Cid)
+				data, gerr := st2.Get(b.Cid)
+				if herr != nil || !has || gerr != nil || !bytes.Equal(data, b.Data) {
+					return viol("crash/acked-block-missing/second:"+loc, "after resuming, putting more blocks and crashing again at a write boundary, the second resume lost acknowledged block %s (Has=%v,%v Get err=%v)", b.Spec, has, herr, gerr)
+				}
+			}
+			st2.Discard()
+		}
+	}
 	var ferr error
 	if pv := safeCall(func() { ferr = store.Finalize() }); pv != nil {
 		return viol("crash/continuation-panic/"+loc, "Finalize after resume panicked: %v", pv)
